@@ -466,11 +466,10 @@ package adaptation
 //@   ensures [c01]      result == nil ==> (forall j int :: 0 <= j && j < len(devices) && !markedK(devices[j].Path) && !rmD(devices, devices[j].Path) ==> !old(ownedD(r, devices[j].Path)))
 //@   ensures [view.new] result == nil ==> (forall j int :: 0 <= j && j < len(devices) && !markedK(devices[j].Path) ==> inD(devW(r), devices[j]))
 //@   ensures [view.alloc] result == nil ==> (forall i int :: 0 <= i && i < len(devW(r)) ==> allocated(devW(r)[i]))
-//@   ensures [view.gone.rm] @thorough result == nil ==> (forall i int, k int :: 0 <= i && i < len(devW(r)) && 0 <= k && k < len(devices) && (forall j int :: 0 <= j && j < len(devices) ==> devW(r)[i] != devices[j]) ==> devices[k].Path != "-" + devW(r)[i].Path)
-//@   ensures [view.gone.set] result == nil ==> (forall i int :: 0 <= i && i < len(devW(r)) && (forall j int :: 0 <= j && j < len(devices) ==> devW(r)[i] != devices[j]) ==> !setD(devices, devW(r)[i].Path))
 //@   ensures [reply.new] result == nil ==> (forall j int :: 0 <= j && j < len(devices) && !markedK(devices[j].Path) ==> inD(devD(r), devices[j]))
 //@   ensures [reply.gone] result == nil ==> (forall i int :: 0 <= i && i < len(devD(r)) ==> allocated(devD(r)[i]) && ((forall j int :: 0 <= j && j < len(devices) ==> devD(r)[i] != devices[j]) ==> !rmD(devices, devD(r)[i].Path)))
 //@   ensures [cons]     old(devCons(r)) ==> devCons(r)
+//@   ensures [fwd] @thorough result == nil ==> (forall p string :: rmD(devices, p) && !setD(devices, p) ==> (exists i int :: 0 <= i && i < len(devD(r)) && devD(r)[i].Path == "-" + p))
 // loop 1: split the response into removals (del), sets (mod) and the list of sets in order (add)
 //@   loop 1 modifies elems(add), map(del), map(mod)
 //@   loop 1 invariant 0 <= idx + 1 && idx + 1 <= len(devices) && del != nil && mod != nil && del != mod
@@ -481,6 +480,7 @@ package adaptation
 //@   loop 1 invariant forall j int :: 0 <= j && j <= idx && !markedK(devices[j].Path) ==> inD(add, devices[j])
 //@   loop 1 invariant forall p string :: has(del, p) ==> (exists j int :: 0 <= j && j <= idx && devices[j].Path == "-" + p)
 //@   loop 1 invariant forall p string :: has(mod, p) ==> (exists j int :: 0 <= j && j <= idx && devices[j].Path == p && !markedK(p))
+//@   loop 1 invariant forall p string :: has(del, p) ==> allocated(del[p]) && inD(devices, del[p]) && del[p].Path == "-" + p
 // loop 2: drop removed devices from the collected list and release their owners
 //@   loop 2 modifies elems(cleared), mapkey(r.owners, cid(r)), map(devL(r))
 //@   loop 2 invariant 0 <= idx + 1 && idx + 1 <= len(devD(r)) && wfCreate(r) && cid(r) == old(cid(r)) && id == cid(r) && create == r.request.create && devD(r) == pre(devD(r)) && devW(r) == pre(devW(r))
@@ -511,6 +511,16 @@ package adaptation
 //@   loop 4 invariant old(devCons(r)) ==> devCons(r)
 //@   loop 4 invariant forall j int :: 0 <= j && j < len(devices) && !markedK(devices[j].Path) && (exists i int :: 0 <= i && i <= idx && add[i] == devices[j]) ==> inD(devD(r), devices[j])
 //@   loop 4 invariant forall i int :: 0 <= i && i <= idx ==> ownedD(r, add[i].Path) && devL(r)[add[i].Path] == plugin && !pre(ownedD(r, add[i].Path))
+// loop 5: forward the removal markers that have no set in this response (ranges over del)
+//@   loop 5 modifies reply(r).Linux.Devices, elems(devD(r))
+//@   loop 5 invariant wfCreate(r) && cid(r) == old(cid(r)) && create == r.request.create
+//@   loop 5 invariant (base(devD(r)) == pre(base(devD(r))) || prefresh(devD(r))) && sep(base(devD(r)), base(add)) && sep(base(devD(r)), base(devW(r))) && sep(base(devD(r)), base(devices))
+//@   loop 5 invariant len(devD(r)) >= pre(len(devD(r))) && (forall k int :: 0 <= k && k < pre(len(devD(r))) ==> devD(r)[k] == pre(devD(r)[k]))
+//@   loop 5 invariant forall j string :: visited(j) ==> has(del, j)
+//@   loop 5 invariant forall k string :: visited(k) && !has(mod, k) ==> inD(devD(r), del[k])
+//@   loop 5 invariant old(devCons(r)) ==> devCons(r)
+//@   loop 5 invariant forall j int :: 0 <= j && j < len(devices) && !markedK(devices[j].Path) ==> inD(devD(r), devices[j])
+//@   loop 5 invariant forall i int :: 0 <= i && i < len(devD(r)) ==> allocated(devD(r)[i]) && ((forall j int :: 0 <= j && j < len(devices) ==> devD(r)[i] != devices[j]) ==> !rmD(devices, devD(r)[i].Path))
 
 // ---------------------------------------------------------------------------
 // Mounts (result.go: adjustMounts): ownership, release on removal, view normalisation
@@ -541,11 +551,10 @@ package adaptation
 //@   ensures [c01]      result == nil ==> (forall j int :: 0 <= j && j < len(mounts) && !markedK(mounts[j].Destination) && !rmM(mounts, mounts[j].Destination) ==> !old(ownedM(r, mounts[j].Destination)))
 //@   ensures [view.new] result == nil ==> (forall j int :: 0 <= j && j < len(mounts) && !markedK(mounts[j].Destination) ==> inM(mntW(r), mounts[j]))
 //@   ensures [view.alloc] result == nil ==> (forall i int :: 0 <= i && i < len(mntW(r)) ==> allocated(mntW(r)[i]))
-//@   ensures [view.gone.rm] @thorough result == nil ==> (forall i int, k int :: 0 <= i && i < len(mntW(r)) && 0 <= k && k < len(mounts) && (forall j int :: 0 <= j && j < len(mounts) ==> mntW(r)[i] != mounts[j]) ==> mounts[k].Destination != "-" + mntW(r)[i].Destination)
-//@   ensures [view.gone.set] @thorough result == nil ==> (forall i int :: 0 <= i && i < len(mntW(r)) && (forall j int :: 0 <= j && j < len(mounts) ==> mntW(r)[i] != mounts[j]) ==> !setM(mounts, mntW(r)[i].Destination))
 //@   ensures [reply.new] result == nil ==> (forall j int :: 0 <= j && j < len(mounts) && !markedK(mounts[j].Destination) ==> inM(mntD(r), mounts[j]))
-//@   ensures [fwd] @thorough result == nil ==> (forall p string :: rmM(mounts, p) && !setM(mounts, p) ==> (exists i int :: 0 <= i && i < len(mntD(r)) && mntD(r)[i].Destination == "-" + p))
+//@   ensures [reply.gone] result == nil ==> (forall i int :: 0 <= i && i < len(mntD(r)) ==> allocated(mntD(r)[i]) && ((forall j int :: 0 <= j && j < len(mounts) ==> mntD(r)[i] != mounts[j]) ==> !rmM(mounts, mntD(r)[i].Destination)))
 //@   ensures [cons]     old(mntCons(r)) ==> mntCons(r)
+//@   ensures [fwd] @thorough result == nil ==> (forall p string :: rmM(mounts, p) && !setM(mounts, p) ==> (exists i int :: 0 <= i && i < len(mntD(r)) && mntD(r)[i].Destination == "-" + p))
 // loop 1: split the response into removals (del), sets (mod) and the list of sets in order (add)
 //@   loop 1 modifies elems(add), map(del), map(mod)
 //@   loop 1 invariant 0 <= idx + 1 && idx + 1 <= len(mounts) && del != nil && mod != nil && del != mod
@@ -596,6 +605,7 @@ package adaptation
 //@   loop 5 invariant forall k string :: visited(k) && !has(mod, k) ==> inM(mntD(r), del[k])
 //@   loop 5 invariant old(mntCons(r)) ==> mntCons(r)
 //@   loop 5 invariant forall j int :: 0 <= j && j < len(mounts) && !markedK(mounts[j].Destination) ==> inM(mntD(r), mounts[j])
+//@   loop 5 invariant forall i int :: 0 <= i && i < len(mntD(r)) ==> allocated(mntD(r)[i]) && ((forall j int :: 0 <= j && j < len(mounts) ==> mntD(r)[i] != mounts[j]) ==> !rmM(mounts, mntD(r)[i].Destination))
 
 // ---- hooks: six lists, appended to the reply and to the view (generated by gen_hooks.py) ----
 //@ pure sepHookTargets(r *result) = sep(base(reply(r).Hooks.Prestart), base(reply(r).Hooks.Poststart))
